@@ -88,7 +88,7 @@ func generate(prop, tier string, seed uint64, run int) *Scenario {
 	case "C07":
 		return genConc(prop, seed, run, tier)
 	case "C09":
-		return genLifecycle(prop, seed, run, tier, 0, 0)
+		return genLifecycle(prop, seed, run, tier, 0, 0.12)
 	case "C10":
 		if pick < 70 {
 			return genLifecycle(prop, seed, run, tier, 0, 0.25)
@@ -99,6 +99,10 @@ func generate(prop, tier string, seed uint64, run int) *Scenario {
 	case "C12":
 		if pick >= 92 {
 			return genReuse(prop, seed, run)
+		}
+		if pick >= 86 {
+			// watches that stand for many kernel watches (found 070918a)
+			return genRecurse(prop, seed, run, tier)
 		}
 		if pick < 60 {
 			c := 0
